@@ -13,28 +13,32 @@
     in range, hence `cell ≈ hcomp`, `ladderStep ≈ vcomp` (`Eqv` = same shape, same in-range entries), and the
     executed `contract` on a None-free network returns the scalar of the function-level sweep tensor.
 
+  * `Qec.TensorExact.*` (Lemmas/TensorExact.lean): sums over bond-index assignments (`sumV`, Fubini), the state-sum
+    formula of a ladder-contracted column and of the merged grid tensor, and the mixed-radix enumeration of the
+    executable `exactValue` as such a sum; `netF tn` is the function-level grid of a network (`None` ↦ scalar 1).
+  * `Qec.TensorPad.*` (Lemmas/TensorPad.lean): `None` sites in `contract_pairwise` / `contract_ladder` behave as the
+    scalar tensor 1 (unit of `hcomp` / `vcomp` up to in-range agreement), presence tracking through the sweeps.
+
   Proved here: sweep independence at full generality (any commutative semiring, any grid shape, any compatible
   bond dimensions): LR = RL = every split = rows-first = columns-first, transposed network = transpose of the
-  result; for the executed model over `Int` (None-free networks): `contract` (LR) and `contract` with step −1 (RL)
-  both return the scalar of `gridT`; no-op truncation settings; error cases.
+  result; `exactValue_eq_grid`: the executable brute-force `exactValue` (the definition the harness compares with the
+  real contraction on every run) equals the scalar of the merged grid tensor for every compatible network (any shape,
+  any bond dimensions, None sites included); hence for the executed model over `Int`: `contract_lr_exact`,
+  `contract_rl_exact`, `contract_transpose_exact`, `contract_split` (every split column), all with `exactValue` on
+  the right-hand side and with columns possibly padded with `None` at their ends (`PaddedRows`); `noop_truncation` for `chi` None / 0 / ≥ every bond that occurs during the
+  sweep, falsy `tol`, or an all-false mask (any start/stop/step); error cases.
 
   STATED, NOT PROVED:
-  * `exactValue_eq_gridT`: for a compatible network, `Qec.Tensor.exactValue tn = some (scalar (gridT g m n))`, i.e.
-    the brute-force sum over all bond-index assignments (mixed-radix enumeration in the model) equals the merged grid
-    tensor.  (`contract_lr_exact`, `contract_rl_exact`, `contract_transpose_exact`, `contract_split` of DESIGN.md §7
-    are the theorems below composed with this statement; it is checked on every run by the harness: the model's
-    `exactValue` against the real contraction and against the model's own `contract`.)
-  * model-level split: `splitValue tn k none false none = .ok (scalar (gridT g m n))` for 0 < k ≤ n (needs the
-    resolution of `colRange` for `stop = k` and `start = -1, stop = k-1, step = -1`; the algebra is `split_exact_partial`).
-  * None padding at column ends (`None` ↦ the scalar tensor 1 of shape (1,1,1,1)) — the model-level theorems below
-    assume a None-free network.
-  * `noop_truncation` with `chi ≥` every bond that occurs in the sweep (proved here per call of `truncate`
-    (`truncate_noop`) and for whole contractions when `chi` is None/0 and `tol` is falsy, or the mask is all false).
+  * (none of the statements of DESIGN.md §7 C11 is left unproved.)  Scope notes: the theorems about the
+    executed model are over `Int` entries (what `qvdriver` runs; the algebra — `*_partial`, interchange, state sums —
+    is over any commutative semiring); `None` padding is covered under `PaddedRows` (the rows that hold a tensor form
+    an interval — the documented domain of `contract_ladder`; `None` ↦ scalar 1); truncation that is not a no-op
+    (QR/SVD, LAPACK) is outside the model and outside the property.
 -/
-import QecVerif.Lemmas.TensorBridge
+import QecVerif.Lemmas.TensorPad
 
 namespace Qec.C11
-open Qec.Tensor Qec.TensorAlg Qec.TensorBridge Qec.TensorModel
+open Qec.Tensor Qec.TensorAlg Qec.TensorBridge Qec.TensorModel Qec.TensorExact Qec.TensorPad
 
 section Algebra
 variable {R : Type*} [CommSemiring R]
@@ -106,6 +110,71 @@ theorem contract_lr_eq_rl {tn : Net} {g : ℕ → ℕ → F4 ℤ} {m n : ℕ} (h
     contract tn none false none none (some (-1)) none = contract tn none false none none none none := by
   rw [contract_lr_exact_partial h hok hn he hs hw, contract_rl_exact_partial h hok hn he hs hw]
 
+/-! ### the exact value: brute-force sum over all bond-index assignments -/
+
+/-- **exact value = merged grid tensor.**  Whenever the model's `exactValue` (the literal mixed-radix sum over all
+    bond-index assignments of the product of the entries; `None` sites count as the scalar tensor 1) is defined —
+    i.e. for every compatible network, any shape, any bond dimensions — it is the scalar of the merged grid tensor of
+    the network's function-level grid `netF tn`. -/
+theorem exactValue_eq_grid (tn : Net) (x : ℤ) (hx : exactValue tn = some x) :
+    x = scalar (gridT (netF tn) (tn.nrows - 1) (tn.ncols - 1)) := by
+  have hc := compatible_of_exact tn x hx
+  have := exactValue_eq_gridT tn _ _ (compat_of_compatible tn hc) hc
+  rw [hx] at this
+  exact Option.some.inj this
+
+/-- `exactValue` is defined exactly on the compatible networks -/
+theorem exactValue_defined (tn : Net) : (exactValue tn).isSome = compatible tn := by
+  unfold exactValue
+  cases compatible tn <;> rfl
+
+/-- **left-to-right contraction is exact** (default arguments), columns possibly padded with `None` at their ends
+    (`PaddedRows`: the rows holding at least one tensor form a non-empty interval, which is what keeps the swept
+    MPS contiguous for `contract_ladder`): `contract` returns the brute-force exact value -/
+theorem contract_lr_exact (tn : Net) (hp : PaddedRows tn) (x : ℤ) (hx : exactValue tn = some x) :
+    contract tn none false none none none none = .ok (.scalar x) := by
+  have hcp := compat_of_compatible tn (compatible_of_exact tn x hx)
+  rw [exactValue_eq_grid tn x hx]
+  exact contract_lr_pad tn _ _ hcp hp
+
+/-- **right-to-left contraction is exact** (`step = -1`), columns possibly padded with `None` -/
+theorem contract_rl_exact (tn : Net) (hp : PaddedRows tn) (x : ℤ) (hx : exactValue tn = some x) :
+    contract tn none false none none (some (-1)) none = .ok (.scalar x) := by
+  have hcp := compat_of_compatible tn (compatible_of_exact tn x hx)
+  rw [exactValue_eq_grid tn x hx]
+  exact contract_rl_pad tn _ _ hcp hp
+
+/-- a None-free network (of non-zero shape) is in particular padded -/
+theorem noneFree_paddedRows (tn : Net) (hR : 0 < tn.nrows) (hC : 0 < tn.ncols) (h : NoneFree tn) : PaddedRows tn :=
+  noneFree_padded tn hR hC h
+
+/-- a None-free network (of non-zero shape) has a None-free, hence padded, transpose -/
+theorem noneFree_paddedRows_transpose (tn : Net) (hR : 0 < tn.nrows) (hC : 0 < tn.ncols) (h : NoneFree tn) :
+    PaddedRows tn.transpose :=
+  noneFree_padded tn.transpose hC hR (noneFree_transpose tn h)
+
+/-- **contraction of the transposed network is exact**: `contract (mps2d.transpose tn)` returns the exact value
+    of `tn` (the transposed network may be padded with `None` at its column ends) -/
+theorem contract_transpose_exact (tn : Net) (hp : PaddedRows tn.transpose) (x : ℤ) (hx : exactValue tn = some x) :
+    contract tn.transpose none false none none none none = .ok (.scalar x) := by
+  have hcp := compat_of_compatible tn (compatible_of_exact tn x hx)
+  rw [exactValue_eq_grid tn x hx]
+  exact contract_transpose_pad tn _ _ hcp hp
+
+/-- **split and recombine is exact**: for every split column `0 < k < ncols`, contracting columns `< k` left to
+    right, columns `≥ k` right to left (`start=-1, stop=k-1, step=-1`) and recombining with
+    `inner_product(left, right) * mult_left * mult_right` gives the exact value (columns possibly padded with
+    `None`) -/
+theorem contract_split (tn : Net) (hp : PaddedRows tn) (x : ℤ) (hx : exactValue tn = some x) (k : ℕ) (hk0 : 0 < k)
+    (hk : k < tn.ncols) : splitValue tn k none false none = .ok x := by
+  have hcp := compat_of_compatible tn (compatible_of_exact tn x hx)
+  obtain ⟨a, rfl⟩ : ∃ a, k = a + 1 := ⟨k - 1, by omega⟩
+  obtain ⟨b, hb⟩ : ∃ b, tn.ncols - 1 = a + 1 + b := ⟨tn.ncols - 1 - (a + 1), by omega⟩
+  have hx' := exactValue_eq_grid tn x hx
+  rw [hb] at hcp hx'
+  rw [hx']
+  exact splitValue_pad tn _ a b hcp hp
+
 /-! ### no-op truncation -/
 
 /-- one call of `truncate`: falsy `tol` and (`chi` None, 0, or at least the bond dimension), or an all-false mask,
@@ -124,40 +193,44 @@ theorem truncate_noop (mps : MPS) (chi : Option Int) (tol : Bool) (mask : Option
   · simp [truncateGuard, hm]
   · simp [truncateGuard]
 
-/-- whole contraction: with falsy `tol` and `chi` None or 0, or with an all-false mask of the right shape, `contract`
-    returns exactly what it returns without any truncation argument (any start/stop/step) -/
+/-- **whole contraction, no-op truncation settings**: with a falsy `tol` and a `chi` that is None, 0, or at least
+    every bond dimension that occurs during the sweep (`contractBonds`: `bond_dimension` of every intermediate
+    result of `contract_pairwise` for this `start/stop/step`), or with an all-false mask of the right shape,
+    `contract` returns exactly what it returns without any truncation argument -/
 theorem noop_truncation (tn : Net) (chi : Option Int) (tol : Bool) (start stop step : Option Int)
     (mask : Option Mask)
     (hshape : ∀ m, mask = some m → m.nrows = tn.nrows ∧ m.ncols = tn.ncols)
-    (h : (tol = false ∧ (chi = none ∨ chi = some 0)) ∨ (∃ m, mask = some m ∧ ∀ i, m.a.getD i false = false)) :
+    (h : (tol = false ∧ (chi = none ∨ chi = some 0 ∨
+            ∃ c, chi = some c ∧ ∀ b ∈ contractBonds tn start stop step, (b : Int) ≤ c)) ∨
+         (∃ m, mask = some m ∧ ∀ i, m.a.getD i false = false)) :
     contract tn chi tol start stop step mask = contract tn none false start stop step none := by
   have hchk : maskOK tn mask = true := by
     cases mask with
     | none => rfl
     | some m => obtain ⟨a, b⟩ := hshape m rfl; simp [maskOK, a, b]
   have hnone : maskOK tn none = true := rfl
-  simp only [contract, hchk, hnone, Bool.not_true, Bool.false_eq_true, if_false]
-  cases colRange start stop step tn.ncols with
+  rw [contract_unfold, contract_unfold]
+  simp only [hchk, hnone, Bool.not_true, Bool.false_eq_true, if_false]
+  cases hcr : colRange start stop step tn.ncols with
   | error e => rfl
   | ok cr =>
-    simp only [contractCols, Option.map_none]
-    cases cr with
-    | nil => rfl
-    | cons c cs =>
-      simp only [List.map_cons]
-      have hguard : ∀ (mps : MPS) (p : MPS × Option (List Bool)),
-          p ∈ cs.map (fun c => (tn.col c, mask.map fun m => m.col c)) → truncateGuard mps chi tol p.2 = false := by
-        intro mps p hp
-        obtain ⟨c', _, rfl⟩ := List.mem_map.mp hp
-        rcases h with ⟨rfl, rfl | rfl⟩ | ⟨m, rfl, hm⟩
-        · simp [truncateGuard]
-        · simp [truncateGuard]
-        · simp [truncateGuard, mask_col_allfalse m hm c']
-      have hguard' : ∀ (mps : MPS) (p : MPS × Option (List Bool)),
-          p ∈ cs.map (fun c => (tn.col c, (none : Option (List Bool)))) → truncateGuard mps none false p.2 = false := by
-        intro mps p _; simp [truncateGuard]
-      rw [sweep_noop _ chi none tol false _ _ _ (tn.col c, 1) (by simp [List.map_map, Function.comp_def])
-        hguard hguard']
+    rw [contractBonds_eq tn start stop step cr hcr] at h
+    exact contractCols_noop tn chi tol _ mask cr h
+
+/-- **no-op truncation settings leave the exact value unchanged**: a full left-to-right or right-to-left contraction
+    with a falsy `tol` and `chi` None / 0 / at least every bond that occurs, or with an all-false mask, still returns
+    the exact value -/
+theorem contract_noop_exact (tn : Net) (hp : PaddedRows tn) (x : ℤ) (hx : exactValue tn = some x)
+    (chi : Option Int) (tol : Bool) (step : Option Int) (hstep : step = none ∨ step = some (-1)) (mask : Option Mask)
+    (hshape : ∀ m, mask = some m → m.nrows = tn.nrows ∧ m.ncols = tn.ncols)
+    (h : (tol = false ∧ (chi = none ∨ chi = some 0 ∨
+            ∃ c, chi = some c ∧ ∀ b ∈ contractBonds tn none none step, (b : Int) ≤ c)) ∨
+         (∃ m, mask = some m ∧ ∀ i, m.a.getD i false = false)) :
+    contract tn chi tol none none step mask = .ok (.scalar x) := by
+  rw [noop_truncation tn chi tol none none step mask hshape h]
+  rcases hstep with rfl | rfl
+  · exact contract_lr_exact tn hp x hx
+  · exact contract_rl_exact tn hp x hx
 
 /-! ### error cases -/
 
@@ -203,6 +276,39 @@ example : GridOK gEx 0 1 := by
 
 example : (gridT gEx 0 1).n = 1 ∧ (gridT gEx 0 1).e = 1 ∧ (gridT gEx 0 1).s = 1 ∧ (gridT gEx 0 1).w = 1 :=
   ⟨rfl, rfl, rfl, rfl⟩
+
+/-- the hypotheses of the `…_exact` theorems hold for that network: it is None-free and its exact value is
+    `3*5 + 4*6` -/
+example : NoneFree tnEx := by
+  intro r hr c hc
+  obtain rfl : r = 0 := by simp only [tnEx] at hr; omega
+  rcases (by simp only [tnEx] at hc; omega : c = 0 ∨ c = 1) with rfl | rfl <;> rfl
+
+example : exactValue tnEx = some 39 := by decide
+
+/-- a padded 2×2 network (`None` at the top of column 0, facing bonds 1, vertical bond 2 in column 1, horizontal
+    bond 2 in row 1) satisfies the hypotheses of `contract_lr_exact` / `contract_rl_exact` -/
+def pa : T4 := { n := 1, e := 1, s := 2, w := 1, d := #[2, 3] }
+def pb : T4 := { n := 1, e := 2, s := 1, w := 1, d := #[5, 7] }
+def pc : T4 := { n := 2, e := 1, s := 1, w := 2, d := #[1, 2, 3, 4] }
+def tnPad : Net := { nrows := 2, ncols := 2, a := #[none, some pa, some pb, some pc] }
+
+example : PaddedRows tnPad := by
+  refine ⟨0, 2, by decide, le_refl _, fun r hr => ?_⟩
+  rcases (by simp only [tnPad] at hr; omega : r = 0 ∨ r = 1) with rfl | rfl
+  · exact ⟨fun _ => ⟨le_refl _, by decide⟩, fun _ => ⟨1, by decide, rfl⟩⟩
+  · exact ⟨fun _ => ⟨by decide, by decide⟩, fun _ => ⟨0, by decide, rfl⟩⟩
+
+example : PaddedRows tnPad.transpose := by
+  refine ⟨0, 2, by decide, le_refl _, fun r hr => ?_⟩
+  rcases (by simp only [tnPad, Net.transpose] at hr; omega : r = 0 ∨ r = 1) with rfl | rfl
+  · exact ⟨fun _ => ⟨le_refl _, by decide⟩, fun _ => ⟨1, by decide, by decide⟩⟩
+  · exact ⟨fun _ => ⟨by decide, by decide⟩, fun _ => ⟨0, by decide, by decide⟩⟩
+
+/-- `chi = 2` bounds every bond that occurs in the left-to-right sweep of that network -/
+example : ∀ b ∈ contractBonds tnPad none none none, (b : Int) ≤ 2 := by decide
+
+example : exactValue tnPad = some (2 * (5 * 1 + 7 * 2) + 3 * (5 * 3 + 7 * 4)) := by decide
 
 /-- a 2×2 grid with vertical bonds 2 and horizontal bonds 3 satisfies `GridOK` -/
 def gEx2 : ℕ → ℕ → F4 ℤ := fun r c =>
